@@ -722,7 +722,7 @@ fn check_tree(ctx: &mut Ctx, st: &ST, origin: &str, do_mutations: bool) {
         Err(p) => ctx.violation("C13:diff-panics", &subject, mk(format!("diff_schema(s, s) panicked: {}", p))),
     }
     ctx.distinct(&format!("{}|{:?}", origin, to_schema(st, false)));
-    if ctx.evaluations % 20011 < 4 {
+    if ctx.evaluations % 2003 < 6 {
         ctx.sample("schema-tree", J::obj(vec![("origin", J::s(origin)), ("tree", J::s(brief(st)))]));
     }
     // completeness
